@@ -232,16 +232,29 @@ def minimise(prop: str, viol: Dict[str, Any], known, budget_runs=600, budget_s=2
         return False
     if not hasattr(mod, "shrink_candidates"):
         return case, viol, 0
+    from . import runner as _runner
+    _runner._WD_SCALE[0] = 0.4 if kind.startswith("hang") else 1.0
+    if kind.startswith("hang"):
+        budget_s = max(budget_s, 120.0)
+    try:
+        return _minimise_loop(mod, prop, case, viol, known, kind, want_id, budget_runs, budget_s, still, lambda: (n, best_v))
+    finally:
+        _runner._WD_SCALE[0] = 1.0
+
+
+def _minimise_loop(mod, prop, case, viol, known, kind, want_id, budget_runs, budget_s, still, state):
+    t0 = time.time()
     progress = True
-    while progress and n < budget_runs and time.time() - t0 < budget_s:
+    while progress and state()[0] < budget_runs and time.time() - t0 < budget_s:
         progress = False
         for cand in mod.shrink_candidates(case, prop):
-            if n >= budget_runs or time.time() - t0 > budget_s:
+            if state()[0] >= budget_runs or time.time() - t0 > budget_s:
                 break
             if still(cand):
                 case = cand
                 progress = True
                 break
+    n, best_v = state()
     out_v = dict(best_v)
     out_v["case"] = case
     return case, out_v, n
